@@ -60,7 +60,7 @@ RULE = (
     'other CIDs/sdp/rfcomm/at/athf/avdtp/avctp/hci) and a sequence of 1..20 frames, each a valid PDU of the '
     'target protocol (registry-built with vlib.specgen or captured from the set-up traffic of the same world) '
     'with 1..4 structure-aware mutations (truncate, extend, bit flip, length field 0/max/len+-1, duplicate, '
-    'SDP sequences nested 1..400 deep, ACL PB-flag permutations and L2CAP length lies, AT lines split / '
+    'SDP sequences nested 1..1500 deep, ACL PB-flag permutations and L2CAP length lies, AT lines split / '
     'unterminated / over-long / invalid UTF-8) or plain random bytes; every frame is processed to quiescence '
     'under the event budget; then one reference request per protocol. non-trivial = at least one frame is a '
     'mutated valid PDU, or the victim replied to a frame, or a frame raised inside the stack; distinct by '
@@ -367,7 +367,11 @@ async def build_le(rig: Rig, case) -> None:
         if dcid is None:
             raise HarnessError('LE CoC set-up failed')
         rig.chans['coc'] = {'send': lambda d: raw_send(dcid, d), 'peer_cid': 0x0050, 'victim_cid': dcid}
-    rig.refs = [('att', {'link'}, ref_att), ('lesig', {'link'}, ref_lesig), ('smp', {'link'}, ref_smp)]
+    rig.refs = [('att', {'link'}, ref_att), ('lesig', {'link'}, ref_lesig), ('sigrej', {'link'}, lambda r: ref_sigrej(r, 5)),
+                ('smp', {'link'}, ref_smp)]
+    # raw ACL packets through the peer's own controller (RawPeer.send_acl): 'pacl:<pb flag>'
+    for pb in range(4):
+        rig.chans[f'pacl:{pb}'] = {'send': lambda d, pb=pb: peer.send_acl(d, pb)}
     if 'coc' in rig.opens:
         rig.refs.append(('coc', {'link', 'chan:coc'}, ref_coc))
     rig.refs.append(('hci', set(), ref_hci))
@@ -399,6 +403,21 @@ def ref_lesig(rig: Rig):
     if not got:
         return ('no_answer', 'LE signalling request (LE Credit Based Connection Request, unknown SPSM) got no answer')
     return ('wrong_answer', f'LE signalling request answered with {[g.hex() for g in got[:3]]}')
+
+
+def ref_sigrej(rig: Rig, cid: int):
+    """A signalling command with an unknown code must be answered with Command Reject, same identifier."""
+    mark = len(rig.link.acl_log)
+    ident = 0x6C
+    rig.raw_send(cid, bytes([0x7E, ident, 2, 0, 0xAA, 0xBB]))
+    rig.run(REF_WAIT)
+    got = rig.from_victim(mark, cid)
+    for p in got:
+        if len(p) >= 4 and p[0] == 0x01 and p[1] == ident:
+            return None
+    if not got:
+        return ('no_answer', 'a signalling command with an unknown code got no Command Reject')
+    return ('wrong_answer', f'a signalling command with an unknown code was answered with {[g.hex() for g in got[:3]]}')
 
 
 def ref_smp(rig: Rig, cid: int = 6):
@@ -565,7 +584,8 @@ async def build_classic(rig: Rig, case) -> None:
     rig.chans['sig'] = {'send': lambda d: raw_send(1, d), 'peer_cid': 1, 'victim_cid': 1}
     rig.chans['smpbr'] = {'send': lambda d: raw_send(7, d), 'peer_cid': 7, 'victim_cid': 7}
     rig.chans['connless'] = {'send': lambda d: raw_send(2, d), 'peer_cid': 2, 'victim_cid': 2}
-    rig.refs = [('echo', {'link'}, ref_echo), ('smpbr', {'link'}, lambda r: ref_smp(r, 7))]
+    rig.refs = [('echo', {'link'}, ref_echo), ('sigrej', {'link'}, lambda r: ref_sigrej(r, 1)),
+                ('smpbr', {'link'}, lambda r: ref_smp(r, 7))]
     sink_store: list = []
     rig.state['peer_rx'] = sink_store
 
@@ -889,6 +909,10 @@ def _registry(chan: str, info: dict):
             hand.append(bytes([0x02, 0x31, 4, 0]) + struct.pack('<HH', psm, 0x0071))
         for v, p in zip(cids, pcids):
             hand.append(bytes([0x04, 0x32, 8, 0]) + struct.pack('<HH', v, 0) + bytes([1, 2, 0x30, 0]))  # configure req
+            for k, opts in enumerate([bytes([1, 0]), bytes([2, 0]), bytes([0x81, 0]), bytes([1, 2, 0x30, 0, 5, 1, 0]),
+                                      bytes([4, 9, 3, 1, 1, 0, 0, 0, 0, 0x10, 0]), bytes([3, 22]) + bytes(22), bytes([7, 2, 1, 0])]):
+                hand.append(bytes([0x04, 0x40 + k]) + struct.pack('<HHH', 4 + len(opts), v, 0) + opts)
+                hand.append(bytes([0x05, 0x50 + k]) + struct.pack('<HHHH', 6 + len(opts), p, 0, 0) + opts)
             hand.append(bytes([0x05, 0x33, 6, 0]) + struct.pack('<HHH', p, 0, 0))  # configure rsp
             hand.append(bytes([0x16, 0x34, 4, 0]) + struct.pack('<HH', p, 0xFFFF))  # credits
             hand.append(bytes([0x06, 0x35, 4, 0]) + struct.pack('<HH', v, p))  # disconnection request (valid)
@@ -926,7 +950,7 @@ def _registry(chan: str, info: dict):
                 continuation_state=b'\x00')),
         ]
         hand_out.append(st.sampled_from(hand))
-        out.append(st.tuples(st.integers(1, 400), st.sampled_from([0x35, 0x36, 0x37, 0x3D, 0x3E]), st.sampled_from([2, 4, 6]))
+        hand_out.append(st.tuples(NEST_DEPTH, st.sampled_from([0x35, 0x36, 0x37, 0x3D, 0x3E]), st.sampled_from([2, 4, 6]))
                    .map(lambda t: sdp_nested(*t)))
     if chan == 'avdtp':
         seid = info.get('seid', 1)
@@ -1000,6 +1024,10 @@ def _registry(chan: str, info: dict):
     if chan == 'hci':
         out.append(hci_seed_strategy(info))
     return out, hand_out
+
+
+# the DESIGN asks for 1..200; CPython's default recursion limit is only reached beyond ~450 levels here
+NEST_DEPTH = st.one_of(st.integers(1, 40), st.integers(41, 400), st.integers(401, 1500))
 
 
 def _empty_credit_frame(cr: int, dlci: int) -> bytes:
@@ -1207,9 +1235,16 @@ def case_strategy():
                 # fragments carry PDUs of a protocol the world has open
                 inner = [c for c in (fixed + sorted(opens)) if c not in ('at', 'athf', 'acl', 'hci')]
                 proto = inner[0] if not inner else None
-                return st.sampled_from(inner).flatmap(
-                    lambda p: acl_fragments(info, payload_for(kind, p, info), [info['vcid'].get(p, 0x40)] * 4 + [0x40, 0x7F, 0])
-                ).map(lambda fr: [['hci', f, 'mut'] for f in fr])
+                def carrier(fr, via_peer):
+                    if via_peer and kind == 'le':
+                        # the same fragments as raw ACL packets of the peer (its controller sees the PB flags)
+                        return [[f'pacl:{(f[2] >> 4) & 3}', f[5:], 'mut'] for f in fr]
+                    return [['hci', f, 'mut'] for f in fr]
+
+                return st.tuples(st.sampled_from(inner), st.sampled_from([False, False, False, True])).flatmap(
+                    lambda t: acl_fragments(info, payload_for(kind, t[0], info),
+                                            [info['vcid'].get(t[0], 0x40)] * 4 + [0x40, 0x7F, 0]).map(
+                        lambda fr: carrier(fr, t[1])))
             if chan == 'cid':
                 others = OTHER_CIDS_LE if kind == 'le' else OTHER_CIDS_CLASSIC
                 return st.tuples(st.sampled_from(others), payload_for(kind, 'cid', info), st.booleans()).flatmap(
@@ -1315,7 +1350,8 @@ def calibrate(kind: str, opens) -> dict:
         for name, _needs, fn in rig.refs:
             r = fn(rig)
             if r not in (None, 'skip'):
-                raise HarnessError(f'C17 calibration: reference {name} fails on an untouched world {key}: {r}')
+                # a well-formed request that is not answered with NO hostile frame at all: reported by run()
+                _CALIB.setdefault('untouched_failures', []).append((kind, list(opens), name, r))
         _CALIB['max_wellformed_events'] = max(_CALIB['max_wellformed_events'], rig.max_events)
         if loop.errors:
             raise HarnessError(f'C17 calibration world {key}: loop errors {loop.errors[:2]}')
@@ -1359,10 +1395,12 @@ def closing_effects(rig: Rig, frames) -> set:
         for name, c in rig.chans.items():
             if 'channel' not in c and name != 'coc':
                 continue
-            pat = b'\x04\x00' + struct.pack('<H', c['victim_cid'])
+            # Disconnection Request naming the victim-side CID; Bumble does not look at the length field or
+            # the source CID, so neither does this classification (both outcomes are accepted then)
+            pat = struct.pack('<H', c['victim_cid'])
             i = data.find(pat)
             while i >= 0:
-                if i >= 2 and data[i - 2] == 0x06:
+                if i >= 4 and data[i - 4] == 0x06:
                     closed.add('chan:' + name)
                 i = data.find(pat, i + 1)
         if chan == 'rfcomm' and len(data) >= 2 and (data[1] & 0xEF) in (0x43, 0x0F):
@@ -1386,6 +1424,8 @@ def coc_clean(rig: Rig, frames) -> bool:
         elif chan == 'hci' and len(data) > 9 and data[0] == 2 and vcid in data[5:11]:
             return False
         elif chan in ('lesig', 'hci') and (b'\x16' in data or vcid in data):
+            return False
+        elif chan.startswith('pacl:') and vcid in data[:6]:
             return False
     return n <= 30
 
@@ -1820,7 +1860,7 @@ def parser_strategy(target: str):
         r_, h_ = _registry(reg, {'vhandle': 1, 'captured': {}})
         base += [pick(st.one_of(*r_), st.one_of(*h_)) if r_ and h_ else st.one_of(*(r_ + h_))]
     if target == 'sdp_data_element':
-        base.append(st.tuples(st.integers(1, 400), st.sampled_from([0x35, 0x36, 0x37, 0x3D])).map(
+        base.append(st.tuples(NEST_DEPTH, st.sampled_from([0x35, 0x36, 0x37, 0x3D])).map(
             lambda t: sdp_nested(t[0], t[1], 6)[5:-10]))
     seed = st.one_of(*base)
     return st.one_of(seed.flatmap(lambda s: mutated(chan, s)).map(lambda fr: fr[0]),
@@ -1985,10 +2025,13 @@ def run(ctx) -> None:
     ctx.extra['event_cap'] = CAP
     if most * 50 > CAP:
         raise HarnessError(f'event cap {CAP} is below 50x the most expensive well-formed frame ({most})')
-    ctx.hyp('world', lambda c: run_world_case(ctx, c), case_strategy(), max_examples=ctx.n(1100, 120000))
+    for kind, opens, name, r in _CALIB.get('untouched_failures', []):
+        ctx.fail(f'ref/{name}/{r[0]}/after_{kind}_none', f'with no hostile frame at all: {r[1]}',
+                 {'kind': 'world', 'world': kind, 'target': 'none', 'open': opens, 'frames': []})
+    ctx.hyp('world', lambda c: run_world_case(ctx, c), case_strategy(), max_examples=ctx.n(1300, 120000))
     for i, target in enumerate(PARSER_TARGETS):
         ctx.hyp(f'parser/{target}', lambda p, target=target: run_parser_case(ctx, target, p), parser_strategy(target),
-                max_examples=ctx.n(150, 48000))
+                max_examples=ctx.n(200, 48000))
     if not ctx.quick:
         run_atheris(ctx)
     for kind, targets in (('le', LE_TARGETS), ('classic', CLASSIC_TARGETS)):
@@ -1997,7 +2040,7 @@ def run(ctx) -> None:
     for lab in ('victim_replied', 'stack_raised', 'origin:mut', 'origin:rand', 'hci:event', 'hci:acl', 'hci:sco', 'hci:iso',
                 'hci:other_type', 'valid_disconnect', 'assembler_mid_message', 'ref_ok:att', 'ref_ok:echo', 'ref_ok:sdp',
                 'ref_ok:at', 'ref_ok:athf', 'ref_ok:avdtp', 'ref_ok:avctp', 'ref_ok:smp', 'ref_ok:lesig', 'ref_ok:hci',
-                'ref_ok:coc', 'ref_ok:smpbr'):
+                'ref_ok:coc', 'ref_ok:smpbr', 'ref_ok:sigrej', 'chan:pacl'):
         ctx.floor(lab, 5)
     for target in PARSER_TARGETS:
         ctx.floor(f'parser:{target}', 20)
